@@ -58,6 +58,7 @@ fn project(script: &Script, q: usize) -> Script {
         queues: script.queues.clone(),
         anchors: script.anchors.clone(),
         steps,
+        expect: None,
     }
 }
 
